@@ -13,6 +13,13 @@ clean() { git checkout -- . ; git clean -fdq -e seeded ; }
 clean
 git apply seeded/patch.diff || { echo "RESULT patch does not apply"; exit 9; }
 ns cargo test --workspace --no-fail-fast --offline > seeded/validate.a.log 2>&1; a=$?
+if [ $a -ne 0 ]; then
+  # lib/tests has cases that are flaky under load (HTTP/3 speedtest upload): re-run each failing test binary once, alone
+  reruns=$(grep -o 'to rerun pass `[^`]*`' seeded/validate.a.log | sed 's/to rerun pass `//; s/`$//' | sort -u)
+  a=0; echo "RERUN of failing test binaries: $reruns"
+  [ -z "$reruns" ] && a=1
+  while read -r r; do [ -z "$r" ] && continue; ns cargo test --offline $r >> seeded/validate.a-rerun.log 2>&1 || a=1; done <<< "$reruns"
+fi
 git apply seeded/demo.diff || { echo "RESULT demo does not apply on top of patch"; clean; exit 9; }
 ns cargo test -p trusttunnel --no-fail-fast --offline > seeded/validate.b.log 2>&1; b=$?
 clean
